@@ -146,7 +146,7 @@ func c11Build(tier string) *c11Universe {
 				panic("c11: base does not parse: " + s + ": " + err.Error())
 			}
 			u.bases = append(u.bases, c11Base{kind: "registry", str: s, pkg: v.Package().String(), sub: sub, src: v})
-			fs := pk + "@1.2.3-beta.1"
+			fs := pk + "@1.2.3-beta.1+build.5"
 			if len(sub) > 0 {
 				fs += "//" + strings.Join(sub, "/")
 			}
@@ -154,7 +154,7 @@ func c11Build(tier string) *c11Universe {
 			if err != nil {
 				panic("c11: base does not parse: " + fs + ": " + err.Error())
 			}
-			u.bases = append(u.bases, c11Base{kind: "final", str: fs, pkg: v.Package().String(), ver: "1.2.3-beta.1", sub: sub, final: fv})
+			u.bases = append(u.bases, c11Base{kind: "final", str: fs, pkg: v.Package().String(), ver: "1.2.3-beta.1+build.5", sub: sub, final: fv})
 		}
 	}
 	for _, s := range []string{"git::https://other.example.com/r.git//m?ref=v1", "https://example.net/a.tar.gz", "hashicorp/subnets/cidr//modules/x", "example.org/a/b/c"} {
